@@ -304,9 +304,14 @@ def rule_ascii_prefilter(ctx):
             for g in gs:
                 e = g[3]
                 if e[0] == "discr" or e[0] == "field":
+                    cands = [e]
                     for x in walk(e):
-                        if x[0] == "call" and str(x[1]).endswith("::position"):
-                            pos_guard = True
+                        if x[0] == "local":   # e.g. `let first_letter = if ignore_case { needle.iter().position(..) } else { None }`
+                            cands += [d for _, _, d in fn.def_exprs(x[1])]
+                    for c_ in cands:
+                        for x in walk(c_):
+                            if x[0] == "call" and str(x[1]).endswith("::position"):
+                                pos_guard = True
             if okr:
                 ctx.ok(site(fn, bi), "searches {c, c-32} only when c is in b'a'..=b'z' (image of A..=Z under +32)")
             elif pos_guard:
